@@ -276,12 +276,18 @@ pub fn run(spec: &RunSpec, ty: &dyn TyObj, want_log: bool) -> RunResult {
                 let mut w = start.clone();
                 // fibres in walk order: (value, accepted count, first word, last word)
                 let mut runs: Vec<(Vec<u8>, u64, Vec<u8>, Vec<u8>)> = Vec::new();
+                // step index of the first / last accepted word of each run (for the margins below)
+                let mut run_steps: Vec<(u32, u32)> = Vec::new();
+                // A counted fibre must lie at least MARGIN steps away from both ends of the walk, and the walk goes on
+                // for MARGIN steps after it has seen enough fibres: a word of a counted value that a reordering of
+                // words displaced by less than that shows up as a value going backwards and voids the walk.
+                const MARGIN: u32 = 64;
+                let mut enough_at: Option<u32> = None;
                 let mut contiguous = true;
                 let mut hit_end = false;
                 let mut steps = 0u32;
                 let mut aborted = false;
-                let at_edge_start = if *up { refint::is_zero(start) } else { start.iter().all(|&b| b == 0xFF) };
-                while steps < *max_steps {
+                while steps < *max_steps + 2 * MARGIN {
                     steps += 1;
                     calls_total += 1;
                     let plan = [Plan::Fixed(w.clone())];
@@ -322,6 +328,7 @@ pub fn run(spec: &RunSpec, ty: &dyn TyObj, want_log: bool) -> RunResult {
                             Some(last) if last.0 == v => {
                                 last.1 += 1;
                                 last.3 = w.clone();
+                                run_steps.last_mut().unwrap().1 = steps;
                             }
                             Some(last) => {
                                 // the next fibre must belong to the adjacent value
@@ -330,10 +337,26 @@ pub fn run(spec: &RunSpec, ty: &dyn TyObj, want_log: bool) -> RunResult {
                                     contiguous = false;
                                 }
                                 runs.push((v.clone(), 1, w.clone(), w.clone()));
+                                run_steps.push((steps, steps));
                             }
-                            None => runs.push((v.clone(), 1, w.clone(), w.clone())),
+                            None => {
+                                runs.push((v.clone(), 1, w.clone(), w.clone()));
+                                run_steps.push((steps, steps));
+                            }
                         }
-                        if runs.len() > *fibres as usize + 1 {
+                        if !contiguous {
+                            break;
+                        }
+                        // enough = `fibres` runs that start after the leading margin have been closed
+                        if enough_at.is_none() {
+                            let closed_after_margin = (0..runs.len().saturating_sub(1)).filter(|&i| i > 0 && run_steps[i].0 > MARGIN).count();
+                            if closed_after_margin >= *fibres as usize {
+                                enough_at = Some(steps);
+                            }
+                        }
+                    }
+                    if let Some(e) = enough_at {
+                        if steps >= e + MARGIN {
                             break;
                         }
                     }
@@ -362,9 +385,12 @@ pub fn run(spec: &RunSpec, ty: &dyn TyObj, want_log: bool) -> RunResult {
                 // a fibre is complete when both of its ends were seen: the walk entered it from the neighbouring
                 // value (or started at the edge of the word space) and left it into the next value (or hit the end)
                 let n = runs.len();
+                let _ = hit_end;
                 for (i, rn) in runs.iter().enumerate() {
-                    let opened = i > 0 || at_edge_start;
-                    let closed = i + 1 < n || hit_end;
+                    // both neighbours seen, and the whole run at least MARGIN steps inside the walk (the edges of the
+                    // word space are not taken for fibre ends: under a reordering of words they need not be)
+                    let opened = i > 0 && run_steps[i].0 > MARGIN;
+                    let closed = i + 1 < n && run_steps[i].1 + MARGIN <= steps;
                     if opened && closed {
                         bump(&mut counters, "probe_complete_fibres_counted");
                         let (first, last) = if *up { (rn.2.clone(), rn.3.clone()) } else { (rn.3.clone(), rn.2.clone()) };
@@ -576,13 +602,68 @@ pub fn run(spec: &RunSpec, ty: &dyn TyObj, want_log: bool) -> RunResult {
                             }
                         }
                     }
+                    // Exterior: no word outside the block may map to x, and accepted words below / above the block must
+                    // map to values below / above x. Checked exhaustively for 48 words on each side (catches local
+                    // reorderings of words, e.g. a word permuted by XOR with a small constant before the multiply) and
+                    // at every scale 2^j out to the distance of a whole span (catches reorderings of larger chunks).
+                    let value_side = |v: &Vec<u8>| refint::ucmp(&refint::sub(v, low), k); // Less: below x, Greater: above x
+                    if ok {
+                        let span_bits = if refint::is_zero(&span) { width * 8 } else { refint::bit_len(&span) };
+                        // below the block
+                        let mut d = 1u64;
+                        let mut offsets: Vec<Vec<u8>> = Vec::new();
+                        while d <= 48 {
+                            offsets.push(refint::from_u64(d, width));
+                            d += 1;
+                        }
+                        for j in 6..=span_bits.min(width * 8 - 1) {
+                            let mut o = sp.bytes(width);
+                            for (i, b) in o.iter_mut().enumerate() {
+                                let lo = i * 8;
+                                if lo >= j {
+                                    *b = 0;
+                                } else if lo + 8 > j {
+                                    *b &= ((1u16 << (j - lo)) - 1) as u8;
+                                }
+                            }
+                            o[j / 8] |= 1 << (j % 8);
+                            offsets.push(o);
+                        }
+                        for o in offsets.iter() {
+                            if refint::ucmp(o, &a_x) != O::Greater {
+                                let wv = refint::sub(&a_x, o);
+                                if let Some(v) = probe(&wv, &mut viol, &mut aborted) {
+                                    if value_side(&v) != O::Less {
+                                        ok = false;
+                                        break;
+                                    }
+                                }
+                            }
+                        }
+                        // above the block
+                        let room = refint::sub(&maxw, &e_x);
+                        for o in offsets.iter() {
+                            if !ok {
+                                break;
+                            }
+                            if refint::ucmp(o, &room) != O::Greater {
+                                let wv = refint::add(&e_x, o);
+                                if let Some(v) = probe(&wv, &mut viol, &mut aborted) {
+                                    if value_side(&v) != O::Greater {
+                                        ok = false;
+                                        break;
+                                    }
+                                }
+                            }
+                        }
+                    }
                     // interior: every sampled word of [a_x, e_x] must be accepted at once and map to x
-                    // Deterministically the first and last four words of the block, then 12 seeded interior words each
+                    // Deterministically the first and last 48 words of the block, then 12 seeded interior words each
                     // together with its successor: a sampler whose consecutive words map to different values (low-bit
                     // or modulo mappings, for which bisection finds meaningless "blocks") cannot pass a single pair.
                     let size_m1 = refint::sub(&e_x, &a_x);
                     let mut offs: Vec<Vec<u8>> = Vec::new();
-                    for t in 0..4u64 {
+                    for t in 0..48u64 {
                         let tv = refint::from_u64(t, width);
                         if refint::ucmp(&tv, &size_m1) != O::Greater {
                             offs.push(tv.clone());
@@ -632,18 +713,14 @@ pub fn run(spec: &RunSpec, ty: &dyn TyObj, want_log: bool) -> RunResult {
                 bump(&mut counters, "span_probe_configs_compared");
                 let mn = blocks.iter().min_by(|a, b| refint::ucmp(&a.4, &b.4)).unwrap();
                 let mx = blocks.iter().max_by(|a, b| refint::ucmp(&a.4, &b.4)).unwrap();
-                // Second safety net against a misread structure: in a threshold sampler over contiguous blocks a wrong
-                // zone changes block sizes by one word (at most a factor two for tiny blocks); sizes that differ by
-                // more than that mean the "blocks" found by bisection are not fibres at all — nothing is concluded.
-                let twice_min = {
-                    let mut t = mn.4.clone();
-                    t.push(0);
-                    refint::shl1(&mut t);
-                    t
-                };
-                let mut mx_ext = mx.4.clone();
-                mx_ext.push(0);
-                if mn.4 != mx.4 && refint::ucmp(&mx_ext, &twice_min) == O::Greater {
+                // Second safety net against a misread structure. In any sampler that accepts a word by comparing a
+                // quantity that advances in equal steps along a fibre with a threshold (every multiply-shift sampler,
+                // whatever its zone), the accepted words of two values differ in number by at most ONE, however wrong the
+                // zone is: that is the signature of every zone / remainder / threshold defect. A larger difference means
+                // the "blocks" found by bisection are not fibres (words reordered by the sampler, say) — nothing is
+                // concluded from them.
+                let diff_is_one = refint::add_small(&mn.4, 1) == mx.4;
+                if mn.4 != mx.4 && !diff_is_one {
                     bump(&mut counters, "span_probe_sizes_implausible");
                 } else if mn.4 != mx.4 {
                     viol.push(Violation {
@@ -926,7 +1003,10 @@ pub fn run(spec: &RunSpec, ty: &dyn TyObj, want_log: bool) -> RunResult {
         if by_value.len() >= 2 {
             bump(&mut counters, "fibre_walk_configs_compared");
         }
-        if mn.1 != mx.1 {
+        if mn.1 != mx.1 && mx.1 - mn.1 != 1 {
+            // see the span probes: a threshold sampler's fibres differ by at most one word; anything else is a misread
+            bump(&mut counters, "fibre_walk_sizes_implausible");
+        } else if mn.1 != mx.1 {
             viol.push(Violation {
                 class: "fibre_sizes_differ",
                 op: mn.4,
